@@ -31,7 +31,8 @@ ExpSources(d) == [i \in DOMAIN RawSources(d) |-> Join(d.root, RawSources(d)[i])]
 \* numeric names read as their decimal text: small integers are logged as numbers (n), integers beyond 32 bits and
 \* fractions as the literal written in the document (lit; the drivers only use literals that are already in the
 \* shortest form, which is the form a JSON number prints in)
-NameText(n) == IF "s" \in DOMAIN n THEN n.s ELSE IF "lit" \in DOMAIN n THEN n.lit ELSE ToString(n.n)
+\* (an entry that is neither a string nor a number -- null, true, an object: "raw" -- reads as the empty name, as found)
+NameText(n) == IF "s" \in DOMAIN n THEN n.s ELSE IF "lit" \in DOMAIN n THEN n.lit ELSE IF "raw" \in DOMAIN n THEN "" ELSE ToString(n.n)
 ExpNames(d) == IF Has(d.names) THEN [i \in 1..Len(Get(d.names)) |-> NameText(Get(d.names)[i])] ELSE <<>>
 ExpDebugId(d) == IF Has(d.debug_id) THEN d.debug_id ELSE d.debugId                 \* debug_id wins over debugId
 ExpContents(d) == [i \in DOMAIN RawSources(d) |->
